@@ -219,8 +219,13 @@ Definition loads (s : str) : option json :=
 Definition hexval_u (c : N) : N := if (c <? 58) then c - 48 else c - 55.
 Fixpoint qp_dec_simple (s : str) : list N :=
   match s with
-  | 61 :: a :: b :: r => (hexval_u a * 16 + hexval_u b) :: qp_dec_simple r
-  | c :: r => c :: qp_dec_simple r
+  | c :: r =>
+      if c =? 61 then
+        match r with
+        | a :: b :: r' => (hexval_u a * 16 + hexval_u b) :: qp_dec_simple r'
+        | _ => c :: qp_dec_simple r
+        end
+      else c :: qp_dec_simple r
   | [] => []
   end.
 
